@@ -269,6 +269,11 @@ func (db *DB) replayAndSetupWriteAheadLog() error {
 		log.Printf("done replaying WAL in %v with %d records\n", elapsedDuration, numRecords)
 	}
 
+	err = removeWalFilesOldestFirst(walBasePath)
+	if err != nil {
+		return err
+	}
+
 	err = os.RemoveAll(walBasePath)
 	if err != nil {
 		return err
@@ -285,5 +290,33 @@ func (db *DB) replayAndSetupWriteAheadLog() error {
 		return err
 	}
 	db.wal = writeAheadLog
+	return nil
+}
+
+// removeWalFilesOldestFirst deletes the replayed WAL files in their replay order. When this gets interrupted, the files
+// that are left are always the newest ones, so replaying them again on top of the table that was just written yields
+// the same state. Deleting in directory order could leave an older file behind, whose records would then be replayed
+// into a new table that shadows newer values.
+func removeWalFilesOldestFirst(walBasePath string) error {
+	entries, err := os.ReadDir(walBasePath)
+	if err != nil {
+		return err
+	}
+
+	var names []string
+	for _, entry := range entries {
+		if !entry.IsDir() {
+			names = append(names, entry.Name())
+		}
+	}
+
+	sort.Strings(names)
+	for _, name := range names {
+		err = os.Remove(filepath.Join(walBasePath, name))
+		if err != nil {
+			return err
+		}
+	}
+
 	return nil
 }
